@@ -1,7 +1,7 @@
 (* Finding for C13 (not part of the default build; compile with
      coqc -q -R /verif/coq Ice /verif/coq/Findings/F_C13_stale_clearer.v ).
 
-   The faithful model of udp_mux.go REFUTES "once the in-flight writes have returned, the
+   The faithful model of udp_mux.go (variant handover = false: the code as it is) REFUTES "once the in-flight writes have returned, the
    socket's write deadline is cleared" as soon as one SetWriteDeadline(time.Now()) call may fail
    (the property quantifies over that fault): 3 writers, 3 aborts, the first arming fails.
 
@@ -23,68 +23,68 @@ Tactic Notation "nxt" hyp(R) uconstr(c) :=
        ws armed wpcs apcs fl own clr armfails clrfailed init] in R.
 
 Theorem C13_quiescent_clean_refuted :
-  exists s, reach s /\ quiescent s /\ ws s = w0 /\ armed s = true /\ clrfailed s = false /\ armfails s = 1.
+  exists s, reach false s /\ quiescent s /\ ws s = w0 /\ armed s = true /\ clrfailed s = false /\ armfails s = 1.
 Proof.
-  pose proof reach_init as R.
+  pose proof (reach_init false) as R.
   (* writer 0 enters and leaves the socket *)
-  nxt R (w_call _ 0).
-  nxt R (w_start_load _ 0).
-  nxt R (w_start_cas_ok _ 0).
-  nxt R (w_sock_in _ 0).
-  nxt R (w_sock_ok _ 0).
-  nxt R (w_call _ 1).
-  nxt R (w_call _ 2).
+  nxt R (w_call _ _ 0).
+  nxt R (w_start_load _ _ 0).
+  nxt R (w_start_cas_ok _ _ 0).
+  nxt R (w_sock_in _ _ 0).
+  nxt R (w_sock_ok _ _ 0).
+  nxt R (w_call _ _ 1).
+  nxt R (w_call _ _ 2).
   (* abort 0 wins the blocked bit *)
-  nxt R (a_call _ 0).
-  nxt R (a_load _ 0).
-  nxt R (a_cas_ok _ 0).
+  nxt R (a_call _ _ 0).
+  nxt R (a_load _ _ 0).
+  nxt R (a_cas_ok _ _ 0).
   (* writer 0 is the last writer: count 1 -> 0 under blocked, waits for the deadline bit *)
-  nxt R (w_fin_load_last _ 0).
-  nxt R (w_fin_cas_last_ok _ 0).
+  nxt R (w_fin_load_last _ _ 0).
+  nxt R (w_fin_cas_last_ok _ _ 0).
   (* SetWriteDeadline(now) FAILS; clearWriteAbortState clears blocked *)
-  nxt R (a_arm_fail _ 0).
-  nxt R (a_undo_load _ 0).
-  nxt R (a_undo_cas_ok _ 0).
+  nxt R (a_arm_fail _ _ 0).
+  nxt R (a_undo_load _ _ 0).
+  nxt R (a_undo_cas_ok _ _ 0).
   (* second generation: writer 1, abort 1 (arming succeeds) *)
-  nxt R (w_start_load _ 1).
-  nxt R (w_start_cas_ok _ 1).
-  nxt R (w_sock_in _ 1).
-  nxt R (w_sock_ok _ 1).
-  nxt R (a_call _ 1).
-  nxt R (a_load _ 1).
-  nxt R (a_cas_ok _ 1).
-  nxt R (w_fin_load_last _ 1).
-  nxt R (w_fin_cas_last_ok _ 1).
-  nxt R (a_arm_ok _ 1).
-  nxt R (a_arm_load _ 1).
-  nxt R (a_arm_cas_ok _ 1).
+  nxt R (w_start_load _ _ 1).
+  nxt R (w_start_cas_ok _ _ 1).
+  nxt R (w_sock_in _ _ 1).
+  nxt R (w_sock_ok _ _ 1).
+  nxt R (a_call _ _ 1).
+  nxt R (a_load _ _ 1).
+  nxt R (a_cas_ok _ _ 1).
+  nxt R (w_fin_load_last _ _ 1).
+  nxt R (w_fin_cas_last_ok _ _ 1).
+  nxt R (a_arm_ok _ _ 1).
+  nxt R (a_arm_load _ _ 1).
+  nxt R (a_arm_cas_ok _ _ 1).
   (* BOTH waiters (the stale writer 0 and the genuine writer 1) see blocked+deadline *)
-  nxt R (w_clr_go _ 0).
-  nxt R (w_clr_set_ok _ 0).
-  nxt R (w_clr_go _ 1).
-  nxt R (w_clr_store _ 0).
-  nxt R (w_clr_set_ok _ 1).
+  nxt R (w_clr_go _ _ 0).
+  nxt R (w_clr_set_ok _ _ 0).
+  nxt R (w_clr_go _ _ 1).
+  nxt R (w_clr_store _ _ 0).
+  nxt R (w_clr_set_ok _ _ 1).
   (* third generation: writer 2, abort 2 wins blocked *)
-  nxt R (w_start_load _ 2).
-  nxt R (w_start_cas_ok _ 2).
-  nxt R (w_sock_in _ 2).
-  nxt R (w_sock_ok _ 2).
-  nxt R (a_call _ 2).
-  nxt R (a_load _ 2).
-  nxt R (a_cas_ok _ 2).
+  nxt R (w_start_load _ _ 2).
+  nxt R (w_start_cas_ok _ _ 2).
+  nxt R (w_sock_in _ _ 2).
+  nxt R (w_sock_ok _ _ 2).
+  nxt R (a_call _ _ 2).
+  nxt R (a_load _ _ 2).
+  nxt R (a_cas_ok _ _ 2).
   (* the late Store(0) of writer 1 wipes blocked and the count *)
-  nxt R (w_clr_store _ 1).
-  nxt R (w_fin_zero _ 2).
+  nxt R (w_clr_store _ _ 1).
+  nxt R (w_fin_zero _ _ 2).
   (* abort 2 arms the deadline, finds blocked cleared, returns *)
-  nxt R (a_arm_ok _ 2).
-  nxt R (a_arm_ret _ 2).
+  nxt R (a_arm_ok _ _ 2).
+  nxt R (a_arm_ret _ _ 2).
   (* everybody returns *)
-  nxt R (w_ret _ 0).
-  nxt R (w_ret _ 1).
-  nxt R (w_ret _ 2).
-  nxt R (a_ret _ 0).
-  nxt R (a_ret _ 1).
-  nxt R (a_ret _ 2).
+  nxt R (w_ret _ _ 0).
+  nxt R (w_ret _ _ 1).
+  nxt R (w_ret _ _ 2).
+  nxt R (a_ret _ _ 0).
+  nxt R (a_ret _ _ 1).
+  nxt R (a_ret _ _ 2).
   eexists. split; [exact R|]. repeat split.
   - intros i. destruct i as [|[|[|i]]]; reflexivity.
   - intros j. destruct j as [|[|[|j]]]; reflexivity.
@@ -94,35 +94,35 @@ Print Assumptions C13_quiescent_clean_refuted.
 (* the count field is not exact either: after writer 0's stale Store(0) in the second generation
    writer 1 is still between its increment and its decrement while the count is 0 *)
 Theorem C13_count_exact_refuted :
-  exists s i, reach s /\ inflight (wpcs s i) = true /\ cnt (ws s) = 0.
+  exists s i, reach false s /\ inflight (wpcs s i) = true /\ cnt (ws s) = 0.
 Proof.
-  pose proof reach_init as R.
-  nxt R (w_call _ 0).
-  nxt R (w_start_load _ 0).
-  nxt R (w_start_cas_ok _ 0).
-  nxt R (w_sock_in _ 0).
-  nxt R (w_sock_ok _ 0).
-  nxt R (w_call _ 1).
-  nxt R (a_call _ 0).
-  nxt R (a_load _ 0).
-  nxt R (a_cas_ok _ 0).
-  nxt R (w_fin_load_last _ 0).
-  nxt R (w_fin_cas_last_ok _ 0).
-  nxt R (a_arm_fail _ 0).
-  nxt R (a_undo_load _ 0).
-  nxt R (a_undo_cas_ok _ 0).
-  nxt R (w_start_load _ 1).
-  nxt R (w_start_cas_ok _ 1).
-  nxt R (w_sock_in _ 1).
-  nxt R (a_call _ 1).
-  nxt R (a_load _ 1).
-  nxt R (a_cas_ok _ 1).
-  nxt R (a_arm_ok _ 1).
-  nxt R (a_arm_load _ 1).
-  nxt R (a_arm_cas_ok _ 1).
-  nxt R (w_clr_go _ 0).
-  nxt R (w_clr_set_ok _ 0).
-  nxt R (w_clr_store _ 0).
+  pose proof (reach_init false) as R.
+  nxt R (w_call _ _ 0).
+  nxt R (w_start_load _ _ 0).
+  nxt R (w_start_cas_ok _ _ 0).
+  nxt R (w_sock_in _ _ 0).
+  nxt R (w_sock_ok _ _ 0).
+  nxt R (w_call _ _ 1).
+  nxt R (a_call _ _ 0).
+  nxt R (a_load _ _ 0).
+  nxt R (a_cas_ok _ _ 0).
+  nxt R (w_fin_load_last _ _ 0).
+  nxt R (w_fin_cas_last_ok _ _ 0).
+  nxt R (a_arm_fail _ _ 0).
+  nxt R (a_undo_load _ _ 0).
+  nxt R (a_undo_cas_ok _ _ 0).
+  nxt R (w_start_load _ _ 1).
+  nxt R (w_start_cas_ok _ _ 1).
+  nxt R (w_sock_in _ _ 1).
+  nxt R (a_call _ _ 1).
+  nxt R (a_load _ _ 1).
+  nxt R (a_cas_ok _ _ 1).
+  nxt R (a_arm_ok _ _ 1).
+  nxt R (a_arm_load _ _ 1).
+  nxt R (a_arm_cas_ok _ _ 1).
+  nxt R (w_clr_go _ _ 0).
+  nxt R (w_clr_set_ok _ _ 0).
+  nxt R (w_clr_store _ _ 0).
   eexists. exists 1. split; [exact R|]. split; reflexivity.
 Qed.
 Print Assumptions C13_count_exact_refuted.
